@@ -146,6 +146,7 @@ class Cfg:
         self.length_key = length_key     # write /Length (else the default 40 applies)
         self.cf_name = cf_name
         self.p_unsigned = p_unsigned     # store P as the unsigned number (seen in the wild, issue 186)
+        self.overrides: Dict[str, Any] = {}   # entries forced into the Encrypt dictionary (error-path cases)
         # filled in by derive()
         self.key = b""
         self.O = self.U = self.OE = self.UE = self.Perms = b""
@@ -163,14 +164,17 @@ class Cfg:
         return {"V": self.V, "R": self.R, "length": self.length, "method": self.method, "P": self.P,
                 "id0": self.id0.hex(), "have_id": self.have_id, "user": [ord(c) for c in self.user],
                 "owner": [ord(c) for c in self.owner], "encrypt_metadata": self.encrypt_metadata,
-                "length_key": self.length_key, "cf_name": self.cf_name, "p_unsigned": self.p_unsigned}
+                "length_key": self.length_key, "cf_name": self.cf_name, "p_unsigned": self.p_unsigned,
+                "overrides": self.overrides}
 
     @staticmethod
     def from_json(j: Dict[str, Any]) -> "Cfg":
-        return Cfg(j["V"], j["R"], j["length"], j["method"], j["P"], bytes.fromhex(j["id0"]),
-                   "".join(chr(c) for c in j["user"]), "".join(chr(c) for c in j["owner"]),
-                   j["encrypt_metadata"], j["have_id"], j["length_key"], j.get("cf_name", "StdCF"),
-                   j.get("p_unsigned", False))
+        c = Cfg(j["V"], j["R"], j["length"], j["method"], j["P"], bytes.fromhex(j["id0"]),
+                "".join(chr(c) for c in j["user"]), "".join(chr(c) for c in j["owner"]),
+                j["encrypt_metadata"], j["have_id"], j["length_key"], j.get("cf_name", "StdCF"),
+                j.get("p_unsigned", False))
+        c.overrides = dict(j.get("overrides", {}))
+        return c
 
 
 def p_bytes(P: int) -> bytes:
@@ -310,6 +314,11 @@ def encrypt_dict(cfg: Cfg) -> Dict[str, Any]:
             d["EncryptMetadata"] = cfg.encrypt_metadata
     if cfg.R >= 5:
         d["OE"], d["UE"], d["Perms"] = W.HexStr(cfg.OE), W.HexStr(cfg.UE), W.HexStr(cfg.Perms)
+    for k, v in cfg.overrides.items():
+        if v is None:
+            d.pop(k, None)
+        else:
+            d[k] = v
     return d
 
 
@@ -401,8 +410,8 @@ class Written:
 class EStream:
     """Stored (encrypted, filtered) form of a stream."""
 
-    def __init__(self, d: Dict[str, Any], raw: bytes):
-        self.d, self.raw = d, raw
+    def __init__(self, d: Dict[str, Any], raw: bytes, flate: bool = False):
+        self.d, self.raw, self.flate = d, raw, flate
 
 
 def write_document(objs: Dict[int, Tuple[int, Any]], root: int, cfg: Optional[Cfg], rng,
@@ -445,7 +454,7 @@ def write_document(objs: Dict[int, Tuple[int, Any]], root: int, cfg: Optional[Cf
             if not skip:
                 data = encrypt_bytes(cfg, n, g, data, rng)
             d = _enc_value(cfg, n, g, d, rng)
-            res.stored[n] = (g, "direct", EStream(d, data))
+            res.stored[n] = (g, "direct", EStream(d, data, v.flate))
             out.write(W.ser_indirect(n, W.Stream(_hexify(d, hexmode), data), g, eol))
         else:
             ev = _enc_value(cfg, n, g, v, rng)
@@ -511,6 +520,7 @@ def write_document(objs: Dict[int, Tuple[int, Any]], root: int, cfg: Optional[Cf
         res.xref_rows = bytes(rows)
         d = dict(trailer)
         d.update({"Type": "XRef", "Size": size, "W": [1, 4, 2]})
+        res.stored[xref_id] = (0, "direct", EStream(dict(d), bytes(rows)))
         out.write(W.ser_indirect(xref_id, W.Stream(d, bytes(rows)), 0, eol))   # never encrypted
     out.write(b"startxref" + eol + b"%d" % xpos + eol + b"%%EOF" + eol)
     res.data = out.getvalue()
